@@ -183,6 +183,16 @@ func insertYields(src, name string) (string, int, error) {
 	site := func(p token.Pos) string { return fmt.Sprintf("%s:%d", name, fset.Position(p).Line) }
 	ast.Inspect(f, func(n ast.Node) bool {
 		switch x := n.(type) {
+		case *ast.SelectStmt:
+			// a non-blocking poll that found nothing and acts on it ("not closed yet, so close it"): the
+			// non-empty default clause of a select is a scheduling point too (NRI packages only)
+			if !strings.HasPrefix(name, "ttrpc/") && commClauses(x) > 0 {
+				for _, c := range x.Body.List {
+					if cc, ok := c.(*ast.CommClause); ok && cc.Comm == nil && len(cc.Body) > 0 {
+						list = append(list, ins{off(cc.Colon) + 1, fmt.Sprintf(" simorder.Yield(%q);", site(cc.Pos()))})
+					}
+				}
+			}
 		case *ast.CommClause:
 			if x.Comm != nil && isRecv(x.Comm) {
 				list = append(list, ins{off(x.Colon) + 1, fmt.Sprintf(" simorder.Yield(%q);", site(x.Pos()))})
